@@ -821,8 +821,10 @@ class Emitter:
             st = 'signed __CPROVER_bitvector[%d]' % n
         if op in ('add', 'sub', 'mul'):
             o = {'add':'+','sub':'-','mul':'*'}[op]
-            if 'nsw' in flags:
-                return '((%s)((%s)%s %s (%s)%s))' % (ct, st, a, o, st, b)
+            # 'nsw' is NOT turned into signed C arithmetic: LLVM may speculate poison-generating
+            # instructions whose result is never used, which CBMC's signed-overflow check would
+            # report as a failure of the real code.  All integer arithmetic wraps (IR semantics
+            # of the defined cases); source-level signed-overflow UB is outside the checks.
             if n < 32:
                 return '((%s)((unsigned)%s %s (unsigned)%s))' % (ct, a, o, b)
             return '((%s)(%s %s %s))' % (ct, a, o, b)
@@ -861,8 +863,8 @@ class Emitter:
         return '((%s)%s %s (%s)%s)' % (st, a, o, st, b)
 
 
-RENAME = {'__assert_fail': '__ll2c_assert_fail', 'abort': '__ll2c_abort', 'exit': '__ll2c_exit'}
-LIBC = {'bcmp','malloc','free','realloc','calloc','memcpy','memmove','memset','memcmp','strlen','strcmp','strncmp','strcpy','strncpy',
+RENAME = {'__assert_fail': '__ll2c_assert_fail', 'abort': '__ll2c_abort', 'exit': '__ll2c_exit', 'free': '__ll2c_free'}
+LIBC = {'bcmp','malloc','realloc','calloc','memcpy','memmove','memset','memcmp','strlen','strcmp','strncmp','strcpy','strncpy',
         'printf','fprintf','puts','fputs','fputc','putc','putchar','fflush','fwrite','sprintf','snprintf','strdup',
         'round','roundf','fabs','fabsf','floor','ceil','sqrt','fmod','fmodf','log','exp','pow','strtol','atoi','atol','getrusage'}
 
@@ -1310,7 +1312,13 @@ def emit_instr(em, fc, f, I, lab, edge):
     V = lambda t, v: em.val(t, v, fc)
     def setres(expr):
         out.append('%s = %s;' % (fc.lname(I['res']), expr))
-    if op in CE_BIN:
+    if op == 'sub' and isinstance(I['a'], VLocal) and isinstance(I['b'], VLocal) \
+            and fc.defs.get(I['a'].name, {}).get('op') == 'ptrtoint' and fc.defs.get(I['b'].name, {}).get('op') == 'ptrtoint':
+        # difference of two pointers (libstdc++ containers): keep it a C pointer subtraction so
+        # that CBMC folds it to the offset difference inside one object
+        A = fc.defs[I['a'].name]; B = fc.defs[I['b'].name]
+        setres('((%s)((uint8_t*)%s - (uint8_t*)%s))' % (em.ctype(I['rtype']), V(A['t'], A['a']), V(B['t'], B['a'])))
+    elif op in CE_BIN:
         setres(em.binop(op, I['rtype'], V(I['rtype'], I['a']), V(I['rtype'], I['b']), I['flags']))
     elif op in ('fadd', 'fsub', 'fmul', 'fdiv'):
         o = {'fadd':'+','fsub':'-','fmul':'*','fdiv':'/'}[op]
